@@ -67,7 +67,7 @@ Print Assumptions C10_every_bad_record.
 Example C10_example :
   match codec_named [108;97;116;105;110;95;49]%N with
   | Some cd =>
-    let cfg := [(2, mkfc LLVAR (Some 0) PTStr [] PNone false)] in
+    let cfg := [(2, mkfc LLVAR (Some 0) PTStr [] PNone D43None)] in
     let good := map byte_of_N [49;49;52;52; 64;0;0;0;0;0;0;0;0;0;0;0;0;0;0;0; 48;51; 49;50;51]%N in
     let bad := map byte_of_N [49;49;52;52; 64;0;0;0;0;0;0;0;0;0;0;0;0;0;0;0; 48;120; 49;50;51]%N in
     let d1 := [(KMTI, VStr [49;49;52;52]%N); (KDE 2, VStr [49;50;51]%N)] in
@@ -82,7 +82,7 @@ Proof. vm_compute. repeat split; reflexivity. Qed.
 Example C10_example_several :
   match codec_named [108;97;116;105;110;95;49]%N with
   | Some cd =>
-    let cfg := [(2, mkfc LLVAR (Some 0) PTStr [] PNone false)] in
+    let cfg := [(2, mkfc LLVAR (Some 0) PTStr [] PNone D43None)] in
     let good := map byte_of_N [49;49;52;52; 64;0;0;0;0;0;0;0;0;0;0;0;0;0;0;0; 48;51; 49;50;51]%N in
     let bad := map byte_of_N [49;49;52;52; 64;0;0;0;0;0;0;0;0;0;0;0;0;0;0;0; 48;120; 49;50;51]%N in
     let d := [(KMTI, VStr [49;49;52;52]%N); (KDE 2, VStr [49;50;51]%N)] in
